@@ -61,6 +61,9 @@ func (a *AliasMangler) Mangle(sf reflect.StructField) ([]reflect.StructField, er
 
 	aliasField := sf
 	aliasField.Name += aliasFieldSuffix
+	// The copy of an embedded field must not be embedded as well: both copies
+	// would promote the same field names into the parent.
+	aliasField.Anonymous = false
 
 	// now that we've copied it, reset the struct tags on the source field to
 	// not include the alias tags
